@@ -1,8 +1,9 @@
 (* C05 — Noise channels fire with their documented probabilities and correlations. *)
 From Coq Require Import List Bool Arith NArith QArith.
+From Coq Require String.
 Import ListNotations.
 Require Import Coin CoinWord Rare Chain XorConv.
-Require GenProofs_FrameNoise GenProofs_PauliChan GenProofs_Herald GenProofs_ElseChain.
+Require GenProofs_FrameNoise GenProofs_PauliChan GenProofs_Herald GenProofs_ElseChain GenProofs_TabMeas MeasRec.
 
 (* the coin stage of biased_randomize_bits: exactly p_top_bits of the 256 equally likely 8-coin strings yield a 1, for every
    p_top_bits < 128 (every probability the stage is used for) *)
@@ -48,5 +49,40 @@ Proof. exact GenProofs_Herald.heralded_erase_uses_fresh_bits. Qed.
    element of the chain did *)
 Theorem C05_else_chain_steps_are_the_modelled_rule : GenProofs_ElseChain.elsechain_all_ok = true.
 Proof. exact GenProofs_ElseChain.else_chain_steps_are_the_modelled_rule. Qed.
+(* measurement noise (regenerated from source). Bulk record: reserve_noisy_space_for_results draws one noise row per target of the
+   instruction with probability args[0] (0 when absent) into rows stored .. stored+count-1, and each xor_record_reserved_result XORs
+   its result into row `stored`, masks it and advances by one; hence (MeasRec.noisy_results) result k of the instruction is flipped
+   by exactly its own noise row and earlier rows are untouched. Single shot: noisify_new_measurements flips entry last-k for each
+   rare-error hit k < num_targets, i.e. only the results just recorded, each hit once. *)
+Theorem C05_measurement_record_routines_are_the_model : GenProofs_TabMeas.measrec_ok = true.
+Proof. exact GenProofs_TabMeas.measurement_record_routines_ok. Qed.
+Theorem C05_generated_record_routines_refine_model :
+  forall (row : Type) (rxor : row -> row -> row) (mask : row -> row), GenProofs_TabMeas.measrec_ok = true ->
+  exists rs xs, Gen_TabMeas.measrec_reserve = Some rs /\ Gen_TabMeas.measrec_xor = Some xs /\
+  (forall s stored noise, GenProofs_TabMeas.gen_reserve row rs s stored noise = MeasRec.reserve_noisy row s stored noise) /\
+  (forall st r, GenProofs_TabMeas.gen_record row rxor mask xs st r = MeasRec.xor_record row rxor mask st r).
+Proof. exact GenProofs_TabMeas.generated_record_is_model. Qed.
+Theorem C05_each_result_flipped_by_its_own_noise_row :
+  forall (row : Type) (rxor : row -> row -> row) (mask : row -> row) (s : list row) (stored : nat) (noise results : list row),
+  (stored + length noise <= length s)%nat -> length results = length noise ->
+  fold_left (MeasRec.xor_record row rxor mask) results (MeasRec.reserve_noisy row s stored noise, stored) =
+  (firstn stored s ++ MeasRec.zipx row rxor mask noise results ++ skipn (stored + length noise)%nat s, (stored + length noise)%nat).
+Proof. exact MeasRec.noisy_results. Qed.
+Theorem C05_single_shot_noise_flips_only_new_results :
+  forall (s : list bool) (hits : list nat) (num_targets j : nat),
+  Forall (fun k => (k < num_targets)%nat) hits -> (num_targets <= length s)%nat -> (j < length s - num_targets)%nat ->
+  nth j (MeasRec.noisify 1 s hits) false = nth j s false.
+Proof. exact MeasRec.noisify_only_new_results. Qed.
+Theorem C05_single_shot_noise_flips_once_per_hit :
+  forall (s : list bool) (hits : list nat) (j : nat), nth j (MeasRec.noisify 1 s hits) false = xorb (nth j s false) (MeasRec.parity_hits (length s) j hits).
+Proof. exact MeasRec.noisify_flips. Qed.
+(* the results handed to noisify_new_measurements are exactly the ones the routine recorded: one per target (single-qubit
+   measurements), targets/2 (pair segments) *)
+Theorem C05_tableau_measurements_noisify_what_they_record :
+  GenProofs_TabMeas.tab_single_all_ok = true /\ GenProofs_TabMeas.seg_class_ok GenProofs_TabMeas.cls_tableau = true.
+Proof. exact (conj GenProofs_TabMeas.tableau_measure_reset_routines_ok GenProofs_TabMeas.tableau_pair_segments_ok). Qed.
+Print Assumptions C05_measurement_record_routines_are_the_model. Print Assumptions C05_generated_record_routines_refine_model.
+Print Assumptions C05_each_result_flipped_by_its_own_noise_row. Print Assumptions C05_single_shot_noise_flips_only_new_results.
+Print Assumptions C05_single_shot_noise_flips_once_per_hit. Print Assumptions C05_tableau_measurements_noisify_what_they_record.
 Print Assumptions C05_coin_stage_probability. Print Assumptions C05_word_model_lanes_are_coin_stages.
 Print Assumptions C05_gap_sampling_is_bernoulli. Print Assumptions C05_chain_is_disjoint.
